@@ -121,3 +121,63 @@ Example roundtrip_example : parse_int (str_of_Z (-9223372036854775808)) = Some (
 Proof. reflexivity. Qed.
 Example substr_example : substr_val "abcdef" 2 5 = "cde" /\ substr_val "abc" 2 1 = "".
 Proof. split; reflexivity. Qed.
+
+(* ================================================================== MACHINE-INTEGER EXTREMES
+   (appended; Proofs/IndexExtremesProofs.v).  expression_exec.go execListAccess(int(fnval.Int), left)
+   tests `idx < len(lval)` and returns "" otherwise; substr compares start / end with 0 and the
+   length and forms no sum.  The twins use Z throughout (substr_val: comparisons only;
+   [n]: nth_error at Z.to_nat idx), so the statements above already hold for every int64 argument;
+   these theorems and examples pin the far end: an index at or beyond the length, up to 2^63-1,
+   yields "" for every list representation (a theorem: the twin's unary position is never
+   computed), the index of a NumberExpr lies in 0 .. 2^63-1, and substr at +-2^63. *)
+From KV Require Import Proofs.IndexExtremesProofs.
+
+Theorem index_beyond_end : forall (fo : fops) re k v p l d idx (xs : list bytes),
+  eval fo re k v l = Ok (VStrs xs) ->
+  parse_int d = Some idx -> (Z.of_nat (List.length xs) <= idx)%Z ->
+  eval fo re k v (EAccess p l (ENum 0 d)) = Ok (VStr "").
+Proof. exact index_beyond_end_strs. Qed.
+Print Assumptions index_beyond_end.
+
+Theorem index_beyond_end_int_list : forall (fo : fops) re k v p l d idx (xs : list Z),
+  eval fo re k v l = Ok (VInts xs) ->
+  parse_int d = Some idx -> (Z.of_nat (List.length xs) <= idx)%Z ->
+  eval fo re k v (EAccess p l (ENum 0 d)) = Ok (VStr "").
+Proof. exact index_beyond_end_ints. Qed.
+Print Assumptions index_beyond_end_int_list.
+
+Theorem index_beyond_end_float_list : forall (fo : fops) re k v p l d idx (xs : list (F fo)),
+  eval fo re k v l = Ok (VFlts xs) ->
+  parse_int d = Some idx -> (Z.of_nat (List.length xs) <= idx)%Z ->
+  eval fo re k v (EAccess p l (ENum 0 d)) = Ok (VStr "").
+Proof. exact index_beyond_end_flts. Qed.
+Print Assumptions index_beyond_end_float_list.
+
+(* the index written in the query ([num_value] of the NumberExpr's text, which has no sign: '-' is
+   an operator character) is never negative and fits int64 *)
+Theorem index_in_range : forall (d : string) (c : ascii) (r : string),
+  d = String c r -> c <> "-"%char -> (0 <= num_value d < 2 ^ 63)%Z.
+Proof. exact index_value_range. Qed.
+Print Assumptions index_in_range.
+
+Example index_extremes_example : forall (fo : fops) re,
+  let sp := ECall 0 (EName 0 "split") [EField 6 ValueKW; EStr 13 ","] in
+  eval fo re "k" "a,b" sp = Ok (VStrs ["a"; "b"]) /\
+  eval fo re "k" "a,b" (EAccess 0 sp (ENum 0 "1")) = Ok (VStr "b") /\
+  eval fo re "k" "a,b" (EAccess 0 sp (ENum 0 "2")) = Ok (VStr "") /\
+  eval fo re "k" "a,b" (EAccess 0 sp (ENum 0 "2147483648")) = Ok (VStr "") /\
+  eval fo re "k" "a,b" (EAccess 0 sp (ENum 0 "9223372036854775807")) = Ok (VStr "").
+Proof.
+  intros fo re sp.
+  assert (H : eval fo re "k" "a,b" sp = Ok (VStrs ["a"; "b"])) by (vm_compute; reflexivity).
+  split; [exact H|]. split; [vm_compute; reflexivity|]. split; [vm_compute; reflexivity|].
+  split; (eapply index_beyond_end_strs; [exact H|vm_compute; reflexivity|vm_compute; discriminate]).
+Qed.
+
+Example substr_extremes_example :
+  substr_val "abcdef" 2 (2 ^ 63 - 1) = "cdef" /\
+  substr_val "abc" (2 ^ 63 - 1) (2 ^ 63 - 1) = "" /\
+  substr_val "abc" (- 2 ^ 63) 3 = "" /\
+  substr_val "abc" 0 (- 2 ^ 63) = "" /\
+  substr_val "abc" 2147483648 4294967296 = "".
+Proof. repeat split; vm_compute; reflexivity. Qed.
